@@ -219,6 +219,83 @@ theorem Fut.run (lk : Lk T Req Ans) {f : InFlight T Req} {done : List (Result Re
         exact ⟨_, by simp [hlt], hf.step lk s.cell⟩
       · exact ⟨th, by simp [List.getElem?_set_ne hij, hth], hf⟩
 
+/-! ### a system with exactly one writer (the `watchBackend` goroutine) -/
+
+theorem reader_step (lk : Lk T Req Ans) (c : Cell T) (a : List Req) (b : Option (InFlight T Req))
+    (d : List (Result Req Ans)) :
+    ((Thread.reader a b d).step lk c).1 = c ∧ ∃ a' b' d', ((Thread.reader a b d).step lk c).2 = .reader a' b' d' := by
+  cases b with
+  | some f =>
+    cases hl : f.left with
+    | succ n => exact ⟨by simp [Thread.step, hl], _, _, _, by simp [Thread.step, hl]; exact ⟨rfl, rfl, rfl⟩⟩
+    | zero => exact ⟨by simp [Thread.step, hl], _, _, _, by simp [Thread.step, hl]; exact ⟨rfl, rfl, rfl⟩⟩
+  | none =>
+    cases a with
+    | nil => exact ⟨rfl, _, _, _, rfl⟩
+    | cons r rest => exact ⟨rfl, _, _, _, rfl⟩
+
+/-- thread `w` is the only writer; of the tables `W` it was given, `done` are in the history, `pending` are
+still to be stored -/
+def OneWriter (t0 : T) (W : List T) (w : Nat) (s : Sys T Req Ans) : Prop :=
+  ∃ done pending, s.cell.hist = t0 :: done ∧ s.threads[w]? = some (.writer (pending.map some)) ∧
+    done ++ pending = W ∧
+    ∀ i th, s.threads[i]? = some th → i ≠ w → ∃ a b d, th = Thread.reader a b d
+
+theorem OneWriter.stepAt (lk : Lk T Req Ans) {t0 : T} {W : List T} {w : Nat} {s : Sys T Req Ans}
+    (h : OneWriter t0 W w s) (i : Nat) : OneWriter t0 W w (s.stepAt lk i) := by
+  obtain ⟨done, pending, hh, hw, hdp, hrd⟩ := h
+  unfold Sys.stepAt
+  cases hi : s.threads[i]? with
+  | none => exact ⟨done, pending, hh, hw, hdp, hrd⟩
+  | some th =>
+    have hil : i < s.threads.length := (List.getElem?_eq_some_iff.mp hi).1
+    by_cases hiw : i = w
+    · subst hiw
+      rw [hw] at hi; cases hi
+      cases pending with
+      | nil =>
+        refine ⟨done, [], by simpa [Thread.step] using hh, by simp [Thread.step, hil], hdp, ?_⟩
+        intro j th' hj hne
+        rw [List.getElem?_set_ne (Ne.symm hne)] at hj
+        exact hrd j th' hj hne
+      | cons t rest =>
+        refine ⟨done ++ [t], rest, by simp [Thread.step, Cell.setTable, Cell.store, hh], by simp [Thread.step, hil],
+          by simpa using hdp, ?_⟩
+        intro j th' hj hne
+        rw [List.getElem?_set_ne (Ne.symm hne)] at hj
+        exact hrd j th' hj hne
+    · obtain ⟨a, b, d, rfl⟩ := hrd i th hi hiw
+      obtain ⟨hc, a', b', d', hth⟩ := reader_step lk s.cell a b d
+      refine ⟨done, pending, by show (Thread.step lk s.cell (Thread.reader a b d)).1.hist = _; rw [hc]; exact hh, ?_, hdp, ?_⟩
+      · show (s.threads.set i _)[w]? = _
+        rw [List.getElem?_set_ne hiw]; exact hw
+      · intro j th' hj hne
+        change (s.threads.set i _)[j]? = _ at hj
+        by_cases hji : j = i
+        · subst hji
+          rw [List.getElem?_set_self hil] at hj
+          cases hj; exact ⟨a', b', d', hth⟩
+        · rw [List.getElem?_set_ne (Ne.symm hji)] at hj
+          exact hrd j th' hj hne
+
+theorem OneWriter.run (lk : Lk T Req Ans) {t0 : T} {W : List T} {w : Nat} (sch : List Nat) :
+    ∀ {s : Sys T Req Ans}, OneWriter t0 W w s → OneWriter t0 W w (Sys.run lk sch s) := by
+  induction sch with
+  | nil => intro s h; exact h
+  | cons i sch ih => intro s h; exact ih (h.stepAt lk i)
+
+theorem OneWriter.start (t0 : T) (W : List T) (rs : List (Thread T Req Ans))
+    (hr : ∀ th ∈ rs, ∃ a b d, th = Thread.reader a b d) :
+    OneWriter t0 W rs.length (Sys.start t0 (rs ++ [.writer (W.map some)])) := by
+  refine ⟨[], W, rfl, by simp [Sys.start], rfl, ?_⟩
+  intro i th hi hne
+  simp only [Sys.start] at hi
+  have hlt : i < rs.length := by
+    have := (List.getElem?_eq_some_iff.mp hi).1
+    simp at this; omega
+  rw [List.getElem?_append_left hlt] at hi
+  exact hr th (List.mem_of_getElem? hi)
+
 end cell
 
 /-! ## the `watchBackend` machine -/
@@ -324,6 +401,51 @@ theorem run_active (build : Text → Option T) (es : List Ev) : ∀ (st : WB T),
     have := ih _ inv'
     simp only [WB.run, List.foldl_cons] at this ⊢
     rw [this, recv_nextText_eq, lastGood_cons, ha, (step_cfg build st e).1, (step_cfg build st e).2]
+
+/-! ### the `SetTable` calls of the loop -/
+
+theorem step_installed (build : Text → Option T) (st : WB T) (e : Ev) :
+    (WB.step build st e).active = (WB.installed build st e).getD st.active := by
+  unfold WB.step WB.installed
+  simp only
+  split
+  · simp [recv_active]
+  · split <;> simp [*, recv_active]
+
+theorem installs_last (build : Text → Option T) (es : List Ev) : ∀ st : WB T,
+    (WB.installs build st es).getLast?.getD st.active = (WB.run build st es).active := by
+  induction es with
+  | nil => intro st; simp [WB.installs, WB.run]
+  | cons e es ih =>
+    intro st
+    simp only [WB.installs, WB.run, List.foldl_cons]
+    have := ih (WB.step build st e)
+    simp only [WB.run] at this
+    rw [← this, step_installed]
+    cases hr : WB.installs build (WB.step build st e) es with
+    | nil => cases WB.installed build st e <;> simp
+    | cons x xs =>
+      have hx : (x :: xs).getLast? = some ((x :: xs).getLast (by simp)) := List.getLast?_eq_some_getLast (by simp)
+      rw [List.getLast?_append, hx]
+      simp
+
+theorem installs_mem (build : Text → Option T) (es : List Ev) : ∀ (st : WB T) (t : T),
+    t ∈ WB.installs build st es → ∃ text ∈ textsFrom st.svccfg st.mancfg es, build text = some t := by
+  induction es with
+  | nil => intro st t h; simp [WB.installs] at h
+  | cons e es ih =>
+    intro st t h
+    simp only [WB.installs, List.mem_append] at h
+    rw [recv_nextText_eq]
+    rcases h with h | h
+    · refine ⟨_, List.mem_cons_self, ?_⟩
+      unfold WB.installed at h
+      split at h
+      · simp at h
+      · simpa using h
+    · obtain ⟨text, hm, hb⟩ := ih _ t h
+      rw [(step_cfg build st e).1, (step_cfg build st e).2] at hm
+      exact ⟨text, List.mem_cons_of_mem _ hm, hb⟩
 
 end wb
 
